@@ -333,6 +333,11 @@ def classify(vob, text, meta, rc, out, secs):
         m = re.match(r"\s+--> [^:]+:(\d+):", line)
         if m and cur is not None:
             cur["lines"].append(int(m.group(1)))
+    rustc_errs = [d["msg"] for d in diag if re.match(r"error\[E\d+\]", d["msg"])]
+    if rustc_errs:
+        # the extracted text does not compile (e.g. it refers to an item the extractor does not know about):
+        # nothing was verified, which is "cannot decide", not a refutation
+        return dict(status="undecided", detail="extracted text does not compile: " + " | ".join(rustc_errs[:4]), secs=secs, items=[])
     spans = fn_spans(text)
     per_fn = {}
     try:
